@@ -138,9 +138,9 @@ def hyp_run(ctx: Ctx, name: str, strategy, fn: Callable[[Any], List[Viol]], max_
                 return
             if state['t0'] is None and ctx.shrink_spent > 4 * shrink_budget_s:
                 # shrink budget of this shard is used up: keep collecting buckets, unshrunk
-                ctx.add(fn(case))
+                ctx.add(_guard(ctx, fn, case))
                 return
-            viols = ctx.add(fn(case))
+            viols = ctx.add(_guard(ctx, fn, case))
             new = [v for v in viols if v.bucket not in ignored]
             if new:
                 v = min(new, key=lambda x: (x.size, len(x.message)))
@@ -173,6 +173,19 @@ def hyp_run(ctx: Ctx, name: str, strategy, fn: Callable[[Any], List[Viol]], max_
         ignored.update(ctx.viols.keys())
         remaining -= state['n']
         rnd += 1
+
+
+def _guard(ctx, fn, case):
+    """fn(case), with one kind of exception turned into a violation: the library refusing a model the generators hold to be
+    expressible while it is built through the public classes (on the unchanged tree this never happens; on a changed one
+    it is a defect every property quantifying over "every database built through the public classes" is exposed to)."""
+    from .build import BuildFailed
+    try:
+        return fn(case)
+    except BuildFailed as e:
+        return [Viol(f'{ctx.pid.lower()}:build-raised:{type(e.exc).__name__}',
+                     f'building a generated model through the public classes raised {type(e.exc).__name__}: {e.exc}',
+                     dict(build_failed=True, schema=e.schema_json))]
 
 
 def _is_found(e: BaseException) -> bool:
@@ -367,7 +380,16 @@ def run_replay(modname: str, pid: str, path: str) -> int:
     with open(path) as fh:
         doc = json.load(fh)
     case = doc.get('case', doc)
-    vs = mod.replay(case)
+    if case.get('build_failed'):
+        from . import model
+        from .build import BuildFailed, build
+        try:
+            build(model.from_json(case['schema']))
+            vs = []
+        except BuildFailed as e:
+            vs = [Viol(doc.get('bucket', f'{pid.lower()}:build-raised'), f'building the model through the public classes raised {type(e.exc).__name__}: {e.exc}', case)]
+    else:
+        vs = mod.replay(case)
     real = [v for v in vs if not v.finding]
     for v in vs:
         if v.finding:
